@@ -163,14 +163,16 @@ func buildRichDoc(r *rng, f *docFeat) *document.Document {
 				cfg.Size = &document.ImageSize{Width: float64(r.rangeI(10, 80)), KeepAspectRatio: true}
 				cfg.Alignment = aligns[r.intn(3)]
 				cfg.AltText, cfg.Title = "alt <&>", "title"
-			case 2:
-				cfg.Position = document.ImagePositionFloatLeft
-				cfg.WrapText = document.ImageWrapSquare
-				cfg.Size = &document.ImageSize{Width: 30, Height: 20}
-				cfg.OffsetX, cfg.OffsetY = 5, 7
-			case 3:
-				cfg.Position = document.ImagePositionFloatRight
-				cfg.WrapText = document.ImageWrapTight
+			case 2, 3:
+				// floating: both sides, every kind of text wrapping (and none given), offsets given or not
+				cfg.Position = []document.ImagePosition{document.ImagePositionFloatLeft, document.ImagePositionFloatRight}[r.intn(2)]
+				cfg.WrapText = []document.ImageWrapText{document.ImageWrapSquare, document.ImageWrapTight, document.ImageWrapNone, document.ImageWrapTopAndBottom, ""}[r.intn(5)]
+				if r.chance(50) {
+					cfg.Size = &document.ImageSize{Width: 30, Height: 20}
+				}
+				if r.chance(50) {
+					cfg.OffsetX, cfg.OffsetY = float64(r.rangeI(-3, 9)), float64(r.rangeI(0, 9))
+				}
 			}
 			d.AddImageFromData(imageBytes("png", 4), "p.png", document.ImageFormatPNG, w, h, cfg)
 			f.hit("AddImageFromData")
